@@ -1,11 +1,91 @@
 /-
   Protocol ops of one area (see /verif/FRAMEWORK.md).  Not part of any theorem.  Core Lean only.
+
+  Feature selection / filters / sorted insertion (property C19).
+
+  Regexp oracle used by these ops.  The harness only sends selectors whose regexps are
+  *literals*: bytes from `[A-Za-z0-9 _=-]`, the escaped slash `\/`, or the single characters
+  `(` / `[` (the two invalid regexps it uses).  For such a text Go's `regexp.MatchString` is a
+  substring test of the unescaped literal, and `regexp.Compile` fails iff the text contains
+  `(` or `[`.  `litMatch` / `litValid` below are exactly that.
 -/
 import Gts.Model.Sexp
+import Gts.Model.Feature
 namespace Gts
+
+/-- drop the backslash of every escaped character -/
+def unescapeLit : List Char → List Char
+  | '\\' :: c :: cs => c :: unescapeLit cs
+  | c :: cs => c :: unescapeLit cs
+  | [] => []
+
+def isInfixChars (p : List Char) : List Char → Bool
+  | [] => p.isEmpty
+  | c :: cs => p.isPrefixOf (c :: cs) || isInfixChars p cs
+
+def litMatch (rx v : String) : Bool := isInfixChars (unescapeLit rx.toList) v.toList
+def litValid (rx : String) : Bool := !(rx.toList.any fun c => c == '(' || c == '[')
+
+/-- filter expressions: outer `none` = malformed op, inner `none` = the Go constructor
+returned an error (`ERR`). -/
+partial def decFilter? : Sexp → Option (Option Filter)
+  | .list [.atom "true"] => some (some trueFilter)
+  | .list [.atom "false"] => some (some falseFilter)
+  | .list (.atom "and" :: es) => do
+      let fs ← es.mapM decFilter?
+      pure ((fs.mapM id).map andF)
+  | .list (.atom "or" :: es) => do
+      let fs ← es.mapM decFilter?
+      pure ((fs.mapM id).map orF)
+  | .list [.atom "not", e] => do pure ((← decFilter? e).map notF)
+  | .list [.atom "key", k] => do pure (some (keyF (← decStr? k)))
+  | .list [.atom "within", lo, hi] => do pure (some (withinF (← decInt? lo) (← decInt? hi)))
+  | .list [.atom "overlap", lo, hi] => do pure (some (overlapF (← decInt? lo) (← decInt? hi)))
+  | .list [.atom "fwd"] => some (some forwardStrand)
+  | .list [.atom "rev"] => some (some reverseStrand)
+  | .list [.atom "sel", s] => do pure (selector litValid litMatch (← decStr? s))
+  | .list [.atom "qual", n, q] => do
+      pure (qualifierFilter litValid litMatch (← decStr? n) (← decStr? q))
+  | _ => none
+
+def encStrs (xs : List String) : String := encList (xs.map encStr)
 
 def evalFeat (op : String) (args : List Sexp) : Option String :=
   match op, args with
+  | "sel.shift", [s] => do
+      let r := shiftSelector (← decStr? s)
+      pure (encStr r.1 ++ " " ++ encStr r.2)
+  | "sel.eval", [s, f] => do
+      let f ← decFeature? f
+      match selector litValid litMatch (← decStr? s) with
+      | some p => pure (encBool (p f))
+      | none => pure "ERR"
+  | "feat.eval", [e, f] => do
+      let f ← decFeature? f
+      match ← decFilter? e with
+      | some p => pure (encBool (p f))
+      | none => pure "ERR"
+  | "feat.filter", e :: fs => do
+      let t ← fs.mapM decFeature?
+      match ← decFilter? e with
+      | some p => pure (encList ((Table.filterTable p t).map encFeature))
+      | none => pure "ERR"
+  | "feat.less", [f, g] => do pure (encBool (Table.lessF (← decFeature? f) (← decFeature? g)))
+  | "tab.insert", [.list fs, f] => do
+      pure (encList ((Table.insert (← fs.mapM decFeature?) (← decFeature? f)).map encFeature))
+  | "props.q", [ps, n] => do
+      let ps ← decProps? ps
+      let n ← decStr? n
+      let g := match Props.get ps n with
+        | some vs => encStrs vs
+        | none => "NIL"
+      pure s!"{Props.index ps n} {encBool (Props.has ps n)} {g} {encStrs (Props.keys ps)}"
+  | "rng.compare", [a, b, c, d] => do
+      pure (toString (Loc.rangeCompare (← decInt? a) (← decInt? b) (← decInt? c) (← decInt? d)))
+  | "rng.within", [a, b, c, d] => do
+      pure (encBool (Loc.rangeWithin (← decInt? a) (← decInt? b) (← decInt? c) (← decInt? d)))
+  | "rng.overlap", [a, b, c, d] => do
+      pure (encBool (Loc.rangeOverlap (← decInt? a) (← decInt? b) (← decInt? c) (← decInt? d)))
   | _, _ => none
 
 end Gts
